@@ -28,7 +28,7 @@ from harness import core, fsbox, sched, tlc
 from checks import loader_common as lc
 
 SCENARIOS = ['main_edit_dir_override', 'dir_edit', 'defaults_permissive', 'deprecated', 'alias_eval', 'dir_edit_linked', 'merge_mode_dir_edit',
-             'empty_main_dir_edit', 'defaults_override_removed', 'dir_two_files']
+             'empty_main_dir_edit', 'defaults_override_removed', 'dir_two_files', 'deprecated_override_removed', 'dir_only_edit']
 MERGE_MODE = {'merge_mode_dir_edit'}
 NAMES = ['n', 'm', 'o', 'u', 'default']
 ROLES = ['a', 'b', 'd1r', 'd2r', 'dflt', 'old', 'nobody']
@@ -77,6 +77,10 @@ def scenario_files(sc):
         return {'main': {'o': R('a')}}, {'main': {'o': R('b')}}
     if sc == 'dir_edit_linked':
         return {'main': {'u': R('a')}, 'd1/a': {'n': ALIAS_M, 'm': R('a')}}, {'d1/a': {'m': R('b'), 'n': ALIAS_O, 'o': R('a')}}
+    if sc == 'deprecated_override_removed':
+        return {'main': {'o': R('a'), 'm': R('a')}}, {'main': {'m': R('b')}}
+    if sc == 'dir_only_edit':
+        return {'d1/a': {'n': R('d1r'), 'm': R('a')}}, {'d1/a': {'m': R('b')}}
     if sc == 'dir_two_files':
         return {'main': {'n': R('a'), 'm': R('a')}, 'd1/a': {'n': R('d1r')}, 'd1/b': {'m': R('b')}}, {'d1/b': {'m': R('d2r')}}
     if sc == 'defaults_override_removed':
@@ -90,9 +94,9 @@ def scenario_files(sc):
 
 def defaults_for(sc):
     from oslo_policy import policy
-    if sc in ('defaults_permissive', 'empty_main_dir_edit', 'defaults_override_removed'):
+    if sc in ('defaults_permissive', 'empty_main_dir_edit', 'defaults_override_removed', 'dir_only_edit'):
         return [policy.RuleDefault('n', 'role:dflt')]
-    if sc == 'deprecated':
+    if sc in ('deprecated', 'deprecated_override_removed'):
         return [policy.RuleDefault('n', 'role:dflt', deprecated_rule=policy.DeprecatedRule('o', 'role:old', deprecated_reason='r', deprecated_since='s'))]
     return []
 
@@ -112,7 +116,8 @@ class Env:
         self.old, self.edit = scenario_files(sc)
         for f, c in self.old.items():
             self._write(f, c)
-        self.e = lc.new_enforcer(self.box, 'plain', True, defaults=defaults_for(sc), overwrite=sc not in MERGE_MODE)
+        # (the configured-but-absent optional directory comes FIRST in policy_dirs)
+        self.e = lc.new_enforcer(self.box, 'plain', True, defaults=defaults_for(sc), overwrite=sc not in MERGE_MODE, absent_first=True)
         self.e.load_rules()
 
     def _write(self, f, c):
@@ -345,17 +350,20 @@ def judge(sc, cases, invariant):
     try:
         with os.fdopen(fd, 'w') as f:
             json.dump(stripped, f)
-        res = tlc.run('Conf_LoaderMT', CONF_CFG % (sc, 'FALSE', 'FALSE' if sc in MERGE_MODE else 'TRUE', invariant), env={'VERIF_CASES': path}, cont=True, timeout=3000)
+        # AtomicOK is listed first: a case whose decision is wrong is reported under it, a case that only
+        # leaves a wrong rule store behind under Conforms (TLC reports the first violated invariant of a state)
+        inv = 'AtomicOK\nINVARIANT Conforms' if invariant == 'Conforms' else invariant
+        res = tlc.run('Conf_LoaderMT', CONF_CFG % (sc, 'FALSE', 'FALSE' if sc in MERGE_MODE else 'TRUE', inv), env={'VERIF_CASES': path}, cont=True, timeout=3000)
     finally:
         os.unlink(path)
-    bad = set()
+    bad = {}
     for v in res.violations:
-        if v['name'] != invariant:
+        if v['name'] not in (invariant, 'AtomicOK'):
             raise tlc.TLCError('unexpected violation %s\n%s' % (v['name'], v['text'][:1500]))
-        bad.add(int(re.findall(r'\bcid = (\d+)', v['text'])[-1]))
+        bad[int(re.findall(r'\bcid = (\d+)', v['text'])[-1])] = 'decision' if v['name'] == 'AtomicOK' else 'settled'
     if res.distinct < len(cases):
         raise tlc.TLCError('Conf_LoaderMT: %d states for %d cases' % (res.distinct, len(cases)))
-    return sorted(bad)
+    return bad if invariant == 'Conforms' else sorted(bad)
 
 
 def run(ctx):
@@ -396,7 +404,9 @@ def run(ctx):
                 'merge_mode_dir_edit': [('n', 'a'), ('n', 'd1r'), ('n', 'd2r')],
                 'empty_main_dir_edit': [('n', 'd1r'), ('n', 'd2r'), ('n', 'dflt')],
                 'defaults_override_removed': [('n', 'nobody'), ('n', 'a'), ('n', 'dflt'), ('u', 'nobody')],
-                'dir_two_files': [('n', 'a'), ('n', 'd1r'), ('m', 'a'), ('m', 'b'), ('m', 'd2r')]}[sc]
+                'dir_two_files': [('n', 'a'), ('n', 'd1r'), ('m', 'a'), ('m', 'b'), ('m', 'd2r')],
+                'deprecated_override_removed': [('n', 'a'), ('n', 'dflt'), ('m', 'a'), ('m', 'b'), ('n', 'old')],
+                'dir_only_edit': [('n', 'd1r'), ('n', 'dflt'), ('m', 'a'), ('m', 'b')]}[sc]
         # park points: in the quick tier those line events of the reloading call at which the shared
         # store (contents, file-rule record, default rule) has just changed - every distinct window is
         # visited once - plus a regular sample; in the thorough tier every line event
@@ -458,17 +468,23 @@ def run(ctx):
                         cases.append(c)
         n_sched += len(cases)
         ctx.traces += len(cases)
-        for i in judge(sc, cases, 'Conforms'):
+        verdicts = judge(sc, cases, 'Conforms')
+        for i in sorted(verdicts):
             c = cases[i - 1]
             n_bad += 1
-            if c['crashed']:
+            if verdicts[i] == 'settled' and not c['crashed']:
+                # the decision was fine, but after both calls returned the rule store is not the new policy
+                left = ','.join('%s=%s' % (n, '+'.join(c['final'][n]) or '-') for n in sorted(c['final']) if c['final'][n])
+                key = '%s:%s:settled-store %s' % (sc, c['shape'], left)
+                what = 'after both calls returned, the rule store is not the new policy (it decides %s)' % left
+            elif c['crashed']:
                 key = '%s:%s:crashed' % (sc, c['shape'])
                 what = 'a call raised during a concurrent reload: %s' % c.get('_exc')
             else:
                 # the abstract window: the rule store the decision was taken on
                 # (the file-rule record only where it feeds the decision: deprecated defaults)
-                st = fmt_state(c['rules'], c['frules'] if sc == 'deprecated' else [])
-                st = st if sc == 'deprecated' else st.split('|')[0]
+                st = fmt_state(c['rules'], c['frules'] if sc.startswith('deprecated') else [])
+                st = st if sc.startswith('deprecated') else st.split('|')[0]
                 if c.get('_extra'):
                     st += '|' + c['_extra']
                 key = '%s:%s:%s %s role %s at %s' % (sc, c['shape'], c['q'], 'allows' if c['allow'] else 'denies', c['role'], st)
